@@ -529,6 +529,41 @@ func httpCodeTables(c *core.Ctx) {
 			for v, cst := range named {
 				c.Check(covered[v], "connectCodeToHTTP/case/"+cst.Name(), fd.Pos(), "explicit case for %s", cst.Name())
 			}
+			// the Connect protocol's own table (the "Error codes" section of the specification the pinned
+			// release implements): a unary error travels under exactly this status
+			connectSpec := map[string]int64{"CodeCanceled": 408, "CodeUnknown": 500, "CodeInvalidArgument": 400, "CodeDeadlineExceeded": 408,
+				"CodeNotFound": 404, "CodeAlreadyExists": 409, "CodePermissionDenied": 403, "CodeResourceExhausted": 429,
+				"CodeFailedPrecondition": 412, "CodeAborted": 409, "CodeOutOfRange": 400, "CodeUnimplemented": 404, "CodeInternal": 500,
+				"CodeUnavailable": 503, "CodeDataLoss": 500, "CodeUnauthenticated": 401}
+			gotStatus := map[int64]int64{}
+			for _, cs := range cases {
+				status := int64(-1)
+				if len(cs.Clause.Body) == 1 {
+					if ret, ok := cs.Clause.Body[0].(*ast.ReturnStmt); ok && len(ret.Results) == 1 {
+						if v, ok := astx.ConstInt(info, ret.Results[0]); ok {
+							status = v
+						}
+					}
+				}
+				for _, k := range cs.Keys {
+					if v, ok := astx.ConstInt(info, k); ok {
+						gotStatus[v] = status
+					}
+				}
+			}
+			for v, cst := range named {
+				want, inSpec := connectSpec[cst.Name()]
+				got, has := gotStatus[v]
+				if !inSpec || !has {
+					continue // a missing case is reported above
+				}
+				key := "connectCodeToHTTP/spec/" + cst.Name()
+				if got < 0 {
+					c.Undecided(key, fd.Pos(), "the clause for %s is not a single constant return", cst.Name())
+					continue
+				}
+				c.Check(got == want, key, fd.Pos(), "%s -> HTTP %d (Connect specification: %d)", cst.Name(), got, want)
+			}
 			for i, ret := range astx.Returns(fd.Body) {
 				key := fmt.Sprintf("connectCodeToHTTP/return#%d", i)
 				if len(ret.Results) != 1 {
